@@ -25,6 +25,8 @@ lane() {
       [ -f $D/patch.diff ] || continue
       name=$(basename $D)
       case "$name" in ${ONLY:-}*) ;; *) continue;; esac
+      # LIST=<file of id/name lines>: only those
+      if [ -n "${LIST:-}" ] && ! grep -qx "$ID/$name" "$LIST"; then continue; fi
       M=/tmp/reseed-m-$k; rm -rf $M; mkdir -p $M/demo
       cp $D/patch.diff $M/patch.diff
       rmdir $M/demo
